@@ -1,2 +1,3 @@
 pub mod calendar;
+pub mod fmt_spec;
 pub mod instant;
